@@ -1170,3 +1170,6 @@ def run(ctx) -> None:
     from .c19 import rule_I2
     ctx.rules_run.append("I2")
     rule_I2(ctx)          # every enum value of the schema keeps a member of its own
+    from .c18 import rule_Y12
+    ctx.rules_run.append("Y12")
+    rule_Y12(ctx)         # the output imports: datetime / timedelta are imported for every annotation shape that names them (map values included)
